@@ -172,7 +172,7 @@ def run(case):
 def strategy(tier):
     @st.composite
     def s(draw):
-        c = draw(drive.st_dw_case(tier=tier, scales=True))
+        c = draw(drive.st_dw_case(tier=tier, scales=True, bounds_forms=True))
         if draw(st.integers(0, 5)) == 0:
             # documented driver option (a restart of the evaluation every 100 refined objects): the selection of a step
             # must not depend on it; histories with many refined intervals (uniform / broad steps) cross the 100 quickly
